@@ -68,6 +68,9 @@ template <int S> struct Runner {
       toggle = !toggle; double e1 = reused.getEnergy(), e2 = reused.getEnergy(); ++c.st.comparisons;
       if (reused.getTrajectory().getBreakpoints() != sp.getTrajectory().getBreakpoints() || !mat_bits_equal(reused.getTrajectory().getCoefficients(), C)) fail("energy-reused-object", fmt("the trajectory a re-fitted object publishes (knots / polynomials) is not the one its energy refers to | %s", describe(p).c_str()));
       if (!bits_equal(e1, got) || !bits_equal(e2, got)) fail("energy-reused-object", fmt("a re-fitted object reports %.17g (then %.17g), a fresh one %.17g | %s", e1, e2, got, describe(p).c_str())); }
+    // objects that reached this problem through a history (a LARGER problem whose energy was queried, the same N with other durations, reversed
+    // durations) report the same energy, bit for bit (seeded change C04-m9: per-segment scratch only ever grown and summed over its whole length)
+    for (int v = 0; v < 4; v += 3) { Sp h = build_with_history<S, D>(p, v); const double eh = h.getEnergy(); ++c.st.comparisons; if (!bits_equal(eh, got) || !bits_equal(h.getEnergy(), got)) { fail("energy-after-history", fmt("a spline that held %s before reports %.17g, a fresh one %.17g | %s", v <= 1 ? "a larger, fully queried problem" : "another problem of the same size", eh, got, describe(p).c_str())); break; } }
     if ((LD)got < -THR * mag) fail("energy-negative", fmt("getEnergy %.17g | %s", got, describe(p).c_str()));
     // sum over coordinates: energy of the D-dim spline = sum of the energies of the 1-D splines of its coordinates
     if (D > 1) {
